@@ -598,3 +598,110 @@ class KX:
 _kx = KX()
 for _p in ['C17', 'C18', 'C19', 'C20']:
     ENGINES[_p] = _kx
+
+
+# ------------------------------------------------------------------------------------------------ HX
+class HX:
+    SCOPES = {'quick': ['sigma=2,L=2,pal=abc,stretch=1,pd=min,nf=2', 'sigma=2,L=2,pal=sgn,stretch=130,pd=min,nf=1,maxn=2', 'sigma=3,L=2,pal=ext,stretch=1,pd=min,nf=1,maxn=2'],
+              'thorough': ['sigma=2,L=2,pal=abc+ext+sgn+spr,stretch=1,pd=quick,nf=2', 'sigma=3,L=2,pal=abc,stretch=1,pd=min,nf=2,maxn=4',
+                           'sigma=2,L=3,pal=abc,stretch=1,pd=min,nf=2,maxn=4', 'sigma=2,L=2,pal=sgn,stretch=130,pd=min,nf=1', 'sigma=2,L=4,pal=abc,stretch=1,pd=min,nf=1,co=1']}
+    DEADLINE = {'quick': 240, 'thorough': 2700}
+    ASSUME = ['state = heap image (address, size, bytes of the blocks allocated while the object was built/loaded, freed set); file-scope mutable state of the library is not part of it '
+              '(the library has none on query paths: nm scan of .data/.bss shows only build-time globals of the suffix sorter and lazily built constant tables)',
+              'every exploration step replays the history on a fresh object in a child forked from the same parent, so addresses are reproducible; a diverging replay is a hard error',
+              'closure argument: if every operation of the alphabet is a self-loop on the image, answers are history-independent for histories of any length over that alphabet',
+              'small-scope hypothesis for the dictionaries explored (scopes listed in coverage)']
+
+    def replay_one(self, binary, f):
+        cell = dict(kv.split('=') for kv in f.get('cell', '').split(',') if '=' in kv)
+        cmd = [binary, '--one', '--kind', f['kind'], '--params', f['params'], '--strings', f['strings'], '--src', f['src'],
+               '--sigma', cell.get('sigma', '2'), '--L', cell.get('L', '2'), '--stretch', cell.get('stretch', '1'), '--pal', cell.get('pal', 'abc')]
+        keys = []
+        for _ in range(2):
+            p = subprocess.run(cmd, stdout=subprocess.PIPE, stderr=subprocess.PIPE, text=True)
+            ks = set()
+            for line in p.stdout.splitlines():
+                if line.startswith('F '):
+                    try:
+                        j = json.loads(line[2:])
+                    except Exception:
+                        continue
+                    ks.add('|'.join([j['op'], vlib.symbolise_sig(binary, j['sig'])]))
+            keys.append(ks)
+        want = '|'.join([f['op'], f['sig']])
+        if all(want in k for k in keys):
+            return True, ''
+        if keys[0] and keys[0] == keys[1]:
+            return True, 'manifestation on replay: %s' % sorted(keys[0])[:3]
+        return False, 'wanted %s got %s' % (want, [sorted(k)[:4] for k in keys])
+
+    def replay(self, prop, path):
+        f = json.load(open(path))
+        b = vlib.build_tool('asan', 'hx')
+        ok, text = self.replay_one(b, f)
+        log(('REPRODUCED ' if ok else 'NOT-REPRODUCED ') + path + ' ' + text)
+        return 1 if ok else 0
+
+    def run(self, prop, tier, seed, deadline=None):
+        t0 = time.time()
+        deadline = deadline or float(os.environ.get('VERIF_DEADLINE', self.DEADLINE[tier]))
+        binary = vlib.build_tool('asan', 'hx')
+        res = Result(prop)
+        cov = {'states': 0, 'transitions': 0, 'traces_validated_against_impl': 0, 'samples': [], 'exhaustive': True, 'objects_explored': 0, 'self_loops': 0,
+               'image_changing_transitions': 0, 'api_calls': 0, 'blocked_objects': 0, 'searches_capped': 0, 'scopes_completed': [], 'scopes_incomplete': [], 'notes': {}, 'alphabet_size_max': 0}
+        os.makedirs(SCRATCH, exist_ok=True)
+        for scope in self.SCOPES[tier]:
+            left = deadline - (time.time() - t0)
+            if left < 5:
+                cov['exhaustive'] = False
+                cov['scopes_incomplete'].append({'scope': scope, 'reason': 'deadline reached before start'})
+                continue
+            procs = []
+            for i in range(vlib.NPROC):
+                out = os.path.join(SCRATCH, 'hx.%d.%d.json' % (os.getpid(), i))
+                procs.append((subprocess.Popen([binary, '--scope', scope, '--shard', '%d/%d' % (i, vlib.NPROC), '--out', out, '--deadline', str(left)], stdout=subprocess.DEVNULL, stderr=subprocess.PIPE), out))
+            complete = True
+            agg = {'units': 0, 'objects': 0, 'states': 0, 'transitions': 0}
+            for p, out in procs:
+                _, err = p.communicate()
+                if p.returncode != 0 or not os.path.exists(out):
+                    sys.stderr.write('hx shard failed rc=%s: %s\n' % (p.returncode, err.decode(errors='replace')[-1500:]))
+                    raise SystemExit(2)
+                d = json.load(open(out)); os.unlink(out)
+                complete = complete and d['complete']
+                cov['states'] += d['states']; cov['transitions'] += d['transitions']; cov['objects_explored'] += d['objects']; cov['self_loops'] += d['self_loops']
+                cov['image_changing_transitions'] += d['image_changes']; cov['api_calls'] += d['api_calls']; cov['blocked_objects'] += d['blocked']; cov['searches_capped'] += d['capped']
+                cov['traces_validated_against_impl'] += d['transitions']
+                cov['alphabet_size_max'] = max(cov['alphabet_size_max'], d['alphabet_max'])
+                for k in agg:
+                    agg[k] += d[k]
+                for k, v in d['notes'].items():
+                    k = vlib.symbolise_sig(binary, k)
+                    cov['notes'][k] = cov['notes'].get(k, 0) + v
+                if len(cov['samples']) < 6:
+                    cov['samples'] += d['samples'][:1]
+                for f in d['failures']:
+                    f['sig'] = vlib.symbolise_sig(binary, f['sig'])
+                    res.add(f)
+            entry = dict(agg, scope=scope)
+            if complete:
+                cov['scopes_completed'].append(entry)
+            else:
+                cov['exhaustive'] = False
+                entry['reason'] = 'deadline reached inside scope'
+                cov['scopes_incomplete'].append(entry)
+        rc = res.finish(lambda f: self.replay_one(binary, f))
+        cov['known_findings_hit'] = {k: v['count'] for k, v in res.known_hits.items()}
+        cov['rule'] = ('for every dictionary object of the scopes (input set x palette x kind x parameters x {fresh, loaded}): BFS over call histories; states = distinct heap images reached, '
+                       'transitions = alphabet operations executed from a state (each compared with the fresh-copy answer, pattern buffer compared byte-wise), '
+                       'alphabet = look-ups (members, absent, foreign bytes), extract (valid and invalid IDs), prefix/substring/rank/table operations incl. unsupported ones, save, '
+                       'and every interleaving of two open iterators with look-ups in between')
+        if not cov['samples']:
+            cov['samples'] = [{'note': 'nothing executed'}]
+        vlib.write_evidence(prop, tier, seed, cov, time.time() - t0, len(res.unknown), self.ASSUME)
+        log('%s %s: %d objects, %d states, %d transitions (%d self-loops, %d image changes), %d blocked, exhaustive=%s, %.1fs, rc=%d' % (
+            prop, tier, cov['objects_explored'], cov['states'], cov['transitions'], cov['self_loops'], cov['image_changing_transitions'], cov['blocked_objects'], cov['exhaustive'], time.time() - t0, rc))
+        return rc
+
+
+ENGINES['C14'] = HX()
